@@ -551,12 +551,20 @@ func cmdReplayWriter(args []string) int {
 	jobs := make(chan job, 64)
 	var mu sync.Mutex
 	var wg sync.WaitGroup
+	var nviol int32
 	for k := 0; k < par; k++ {
 		wg.Add(1)
 		go func() {
 			defer wg.Done()
 			for j := range jobs {
+				if atomic.LoadInt32(&nviol) >= 12 {
+					// enough witnesses: the remaining scenarios would only cost time (hangs are bounded by timeouts)
+					continue
+				}
 				r := replayWriterOne(j.s, realB, seed+int64(j.n), 3*time.Second)
+				if r.Status == "violation" {
+					atomic.AddInt32(&nviol, 1)
+				}
 				b, _ := json.Marshal(r)
 				mu.Lock()
 				bw.Write(b)
